@@ -27,8 +27,48 @@ CHECKS = {
 }
 
 
+# properties whose replay file holds one scenario item: (scenario runner, trace module)
+REPLAYERS = {
+    'C07': (props_failover.run_scenario, 'Trace_Failover'),
+    'C08': (props_prepared.run_scenario, 'Trace_Prepared'),
+    'C12': (props_params.run_scenario, 'Trace_Params'),
+    'C14': (props_reload.run_scenario, 'Trace_Reload'),
+    'C18': (props_stats.run_scenario, 'Trace_Stats'),
+    'C20': (props_mirror.run_scenario, 'Trace_Mirror'),
+}
+
+
 def replay(prop, path):
+    """Re-run the scenario of a replay file against pgcat built from /repo and validate its trace again.
+    Exit 1 (with a VIOLATION line naming the same file) if a monitor fires again, 0 if not, 2 on tool errors.
+    For properties without a single-scenario runner the file is printed."""
+    from . import core, tlc
     with open(path) as f:
         obj = json.load(f)
-    print(json.dumps(obj, indent=1)[:4000])
-    return 0
+    item = obj.get('replay')
+    if prop not in REPLAYERS or not isinstance(item, dict) or 'id' not in item:
+        print(json.dumps(obj, indent=1)[:4000])
+        return 0
+    run, module = REPLAYERS[prop]
+    core.build_pgcat()
+    r = run(item)
+    if 'error' in r:
+        print('TOOL-ERROR: scenario crashed: ' + r['error'][-800:])
+        return 2
+    res, info = tlc.validate_trace(module, module + '.cfg', r['recs'])
+    if info['matched'] != info['total']:
+        print('TOOL-ERROR: %s consumed %s of %s records' % (module, info['matched'], info['total']))
+        return 2
+    for n in r.get('notes', [])[:6]:
+        print('note: %s' % n)
+    if not info['viol'] and r.get('alive', True):
+        print('replay of %s: no monitor fired (recorded signature: %s)' % (path, obj.get('sig')))
+        return 0
+    for vi in info['viol']:
+        print('VIOLATION property=%s replay=%s' % (prop, path))
+        print('  kind: %s' % vi['kind'])
+        print('  detail: %s' % json.dumps(vi['detail'], default=repr)[:600])
+    if not r.get('alive', True):
+        print('VIOLATION property=%s replay=%s' % (prop, path))
+        print('  kind: pgcat_died')
+    return 1
